@@ -56,6 +56,13 @@ def _builder(seed):
                         e_ = rng.choice(("&amp;", "&lt;", "&gt;", "&quot;", "&apos;", "&#38;", "&amp;amp;", "&amp;lt;"))
                         cut = rng.randint(0, len(s))
                         s = (s[:cut] + e_ + s[cut:])[:n] if len(e_) <= n else s
+                    if rng.random() < 0.4 and len(s) < n:
+                        cut = rng.randint(0, len(s))
+                        s = s[:cut] + rng.choice("&<>&") + s[cut:]           # markup characters are common, not rare
+                    if rng.random() < 0.15 and len(s) >= 3:
+                        # a run of interior whitespace (blanks, tab, line break): data is trimmed at its ends only
+                        cut = rng.randint(1, len(s) - 1)
+                        s = (s[:cut] + rng.choice(("  ", "   ", "\t", " \n ", "\u00a0\u00a0")) + s[cut:])[:n]
                     s = s.strip()
                     if s and len(s) <= n:
                         return s
@@ -160,6 +167,30 @@ def has_empty_aggregate(x):
     return False
 
 
+import re as _re
+_DATA_OK = _re.compile(r"(?:[^&<]|&(?:amp|lt|gt|quot|apos|nbsp|#[0-9]+|#x[0-9A-Fa-f]+);)*\Z")
+
+
+def wire_lexical_problems(data):
+    """element data on the wire holds no raw '<' and no '&' that does not start an entity (so that it can be told
+    from markup by any reader, not only by this library's)"""
+    from contracts.spec import render as RR_
+    try:
+        text = data.decode("utf_8")
+    except UnicodeDecodeError as ex:
+        return [f"body is not UTF-8: {ex}"]
+    i = text.find("<OFX>") if "<OFX>" in text else text.find("<", text.find("?>") + 1 if text.lstrip().startswith("<?") else 0)
+    body = text[text.rfind("?>") + 2:] if "?>" in text else text[text.find("\n<") + 1 if "\n<" in text else 0:]
+    out = []
+    try:
+        for kind, val in RR_.tokens(body[body.find("<"):]):
+            if kind == "text" and not _DATA_OK.match(val):
+                out.append(f"element data {val.strip()[:40]!r} holds a raw '&' or '<'")
+    except RR_.RefError as ex:
+        out.append(f"body cannot be tokenized: {ex}")
+    return out[:2]
+
+
 def forms(tier, rng):
     out = []
     for v in V1:
@@ -217,6 +248,9 @@ def run_shard(tier, seed, shard, nshards):
                 what = f"{C.__name__} v{version} close_elements={close} prettyprint={pp}"
                 try:
                     data = client.serialize(x, version=version, prettyprint=pp, close_elements=close, newfileuid="NONE")
+                    lex = wire_lexical_problems(data)
+                    if lex and not (not close and empty):
+                        problems.append((what + " (lexical)", lex, ET.tostring(x.to_etree())[:600], bytes(data)[-500:]))
                     p = OFXTree()
                     p.parse(io.BytesIO(data))
                     y = p.convert()
